@@ -436,8 +436,9 @@ def runCase : CaseFn := fun c => Id.run do
         if !cpAppendedObs H 1000 e.evs oldFs d.fs then
           out := out.push (fail "unserved" "filter headers appended by the checkpointed fetch are not hash chains of delivered batches, each starting at the then-current tip")
       else if isCfh then
-        -- many queries, answered by whoever is still connected: what was appended must be the true
-        -- filter-header chain unless a clause above has already said otherwise
+        -- many queries, answered by whoever is still connected: the per-batch "hash chain of a served
+        -- batch" clause does not apply; the store is judged by the clauses above (not ahead, changed at
+        -- its end only, hard-coded checkpoints, bans)
         pure ()
       else if !appendedObs H oldFs d.fs servedLists then
         out := out.push (fail "unserved" "appended filter headers are not the hash chain of any served batch starting at the old tip")
